@@ -5,7 +5,7 @@
 From Coq Require Import ZArith List Bool.
 From Coq.Strings Require Import Byte.
 From Verif Require Import Lib.Bytes Model.Wire Model.TxCodec Model.Sighash
-  Proofs.Sighash Proofs.SighashEq Proofs.SighashCommit Crypto.Sha256 Crypto.Ripemd160 Crypto.HashLemmas.
+  Proofs.Sighash Proofs.SighashEq Proofs.SighashCommit Proofs.SighashSession Gen.GenConsts Crypto.Sha256 Crypto.Ripemd160 Crypto.HashLemmas.
 Import ListNotations.
 Open Scope Z_scope.
 
@@ -127,6 +127,84 @@ Theorem legacy_preimage_commits : forall (H160 : bytes -> bytes), (forall b, len
   i = i' /\ si_code H160 x = si_code H160 x'.
 Proof. exact legacy_commits. Qed.
 
+(* ---------- the life cycle of one Transaction object (Model/Sighash.v: tobj, mut, lib_apply, ob_run) ---------- *)
+
+(* the preimage Transaction.signature returns — every sign_id, hash type and path — is a function of the committed
+   fields only: version, locktime, outputs, segwit flag and per input outpoint, sequence, kind, amount, keys, m.
+   scriptSig, witness and index_n (so: whether, how often and in which order the object was signed, verified or asked
+   for digests) do not enter.  Correspondence obligation named by this theorem: NO HIDDEN STATE — the implementation
+   must answer, at any moment, what this function gives on the fields raw() serialises at that moment *)
+Theorem lib_digest_depends_only_on_fields : forall (H H160 : bytes -> bytes) t t',
+  committed_eq t t' -> forall sid ht wt, lib_signature H H160 t sid ht wt = lib_signature H H160 t' sid ht wt.
+Proof. exact signature_depends_only_on_fields. Qed.
+
+(* the same for the digest sign() hashes and the digest verify() asks for, at every position *)
+Theorem sign_verify_digest_depend_only_on_fields : forall (H H160 : bytes -> bytes) t t',
+  committed_eq t t' -> forall p ht,
+  lib_digest H H160 t p ht = lib_digest H H160 t' p ht /\
+  lib_verify_digest H H160 t p ht = lib_verify_digest H H160 t' p ht.
+Proof. exact digest_depends_only_on_fields. Qed.
+
+(* equal records give equal preimages *)
+Theorem equal_fields_equal_preimages : forall (H H160 : bytes -> bytes) (t t' : stx),
+  t = t' -> forall sid ht wt, lib_signature H H160 t sid ht wt = lib_signature H H160 t' sid ht wt.
+Proof. exact equal_fields_equal_preimages. Qed.
+
+(* after ANY list of steps (observations, attribute assignments, add_input/add_output, set_locktime_*, sign_and_update,
+   shuffle) the object answers with the preimage function applied to the fields raw() serialises now *)
+Theorem session_no_hidden_state : forall (H H160 : bytes -> bytes) o ms sid ht wt,
+  ob_signature H H160 (ob_run o ms) sid ht wt = lib_signature H H160 (ob_fields (ob_run o ms)) sid ht wt.
+Proof. exact session_no_hidden_state. Qed.
+
+(* session formulation: the preimage after the steps is the preimage of a freshly constructed / parsed transaction
+   holding the final fields *)
+Theorem session_digest_is_fresh_digest : forall (H H160 : bytes -> bytes) o ms sid ht wt,
+  ob_signature H H160 (ob_run o ms) sid ht wt = ob_signature H H160 (ob_fresh (ob_fields (ob_run o ms))) sid ht wt.
+Proof. exact session_digest_is_fresh_digest. Qed.
+
+(* two histories ending in the same committed fields answer alike, whatever was signed on the way *)
+Theorem sessions_with_equal_fields_agree : forall (H H160 : bytes -> bytes) o ms o' ms',
+  committed_eq (ob_fields (ob_run o ms)) (ob_fields (ob_run o' ms')) ->
+  forall sid ht wt, ob_signature H H160 (ob_run o ms) sid ht wt = ob_signature H H160 (ob_run o' ms') sid ht wt.
+Proof. exact sessions_with_equal_fields_agree. Qed.
+
+(* computing digests, signing, verifying and serialising leave no trace: a session without them ends in the same object *)
+Theorem observations_transparent : forall ms o,
+  ob_run o (filter (fun m => negb (is_observation m)) ms) = ob_run o ms.
+Proof. exact observations_transparent. Qed.
+
+(* the one duplicated field: every public operation keeps `version` (serialised, committed) and `version_int` equal;
+   objects built by Transaction(...), by add_input/add_output and by parse start equal *)
+Theorem version_copies_agree : forall ms o,
+  forallb keeps_version_copies ms = true -> versions_agree o -> versions_agree (ob_run o ms).
+Proof. exact version_copies_agree. Qed.
+
+Theorem build_api_version_copies_agree : forall v lt sw rbf ins outs, versions_agree (ob_build_api v lt sw rbf ins outs).
+Proof. exact build_api_agree. Qed.
+
+Theorem digest_commits_to_version_int : forall (H H160 : bytes -> bytes) o,
+  versions_agree o -> forall sid ht wt,
+  ob_signature H H160 o sid ht wt =
+  lib_signature H H160 (mk_stx (ob_version_int o) (ob_ins o) (ob_outs o) (ob_locktime o) (ob_segwit o)) sid ht wt.
+Proof. exact digest_commits_to_version_int. Qed.
+
+(* C01 for a live object: whatever happened to it, the digest sign() uses and the digest verify() asks for, for the
+   input at position i, is the consensus digest of the transaction raw() serialises now *)
+Theorem session_digest_ok : forall (H H160 : bytes -> bytes), (forall b, length (H160 b) = 20%nat) ->
+  forall o ms i ht x,
+  wf_stx (ob_fields (ob_run o ms)) -> nth_error (ob_ins (ob_run o ms)) i = Some x ->
+  (k_segwit (si_kind x) = true -> ob_segwit (ob_run o ms) = true) ->
+  hash_type_supported x ht ->
+  ob_digest H H160 (ob_run o ms) i ht = spec_digest H H160 (ob_fields (ob_run o ms)) i ht /\
+  ob_verify_digest H H160 (ob_run o ms) i ht = spec_digest H H160 (ob_fields (ob_run o ms)) i ht.
+Proof. exact session_digest_ok. Qed.
+
+(* (re-)signing a P2PK input (script_type 'signature') puts the NEW signature into the scriptSig raw() serialises
+   (repaired, fixes/C01-3; the code before kept the scriptSig made for the previous digest: see
+   p2pk_resign_unrepaired_refuted) *)
+Theorem p2pk_resign_scriptsig_ok : forall old sig, lib_p2pk_scriptsig old sig = lib_varstr sig.
+Proof. exact p2pk_resign_scriptsig_ok. Qed.
+
 (* ---------- non-vacuity: the hypotheses are inhabited by a two-input mixed transaction ---------- *)
 
 Example ex_tx_wf : wf_stx ex_tx /\ index_ok ex_tx.
@@ -181,6 +259,64 @@ Example legacy_path_nested_refuted :
   lib_legacy_preimage hash160 ex_tx_nested 1 1 <> spec_legacy_preimage hash160 ex_tx_nested 1 1.
 Proof. apply opt_eqb_false; vm_compute; reflexivity. Qed.
 
+(* ---------- life cycle: a concrete object and session ---------- *)
+
+(* built with the default version; signed, looked at, relative locktime on input 0, verified, absolute locktime, input
+   1 opted into RBF, re-signed: the fields raw() then serialises (version 2 through set_locktime_relative_blocks) *)
+Example ex_session_fields : ob_fields (ob_run ex_obj ex_session) = ex_final.
+Proof. exact ex_session_fields_proof. Qed.
+
+Example ex_session_wf :
+  wf_stx (ob_fields (ob_run ex_obj ex_session)) /\
+  forallb keeps_version_copies ex_session = true /\ versions_agree ex_obj /\
+  exists x, nth_error (ob_ins (ob_run ex_obj ex_session)) 0 = Some x /\
+            (k_segwit (si_kind x) = true -> ob_segwit (ob_run ex_obj ex_session) = true) /\
+            hash_type_supported x 1.
+Proof. exact ex_session_wf_proof. Qed.
+
+Example ex_session_digests :
+  opt_eqb (ob_digest sha256d hash160 (ob_run ex_obj ex_session) 0 1) (spec_digest sha256d hash160 ex_final 0 1) = true /\
+  opt_eqb (ob_digest sha256d hash160 (ob_run ex_obj ex_session) 1 1) (spec_digest sha256d hash160 ex_final 1 1) = true /\
+  ob_digest sha256d hash160 (ob_run ex_obj ex_session) 0 1 <> None.
+Proof. vm_compute. repeat split; discriminate. Qed.
+
+(* add_input's BIP68 rule: a default (version 1) transaction that receives a relative-locktime sequence is a
+   version 2 transaction in BOTH copies; without such a sequence it stays version 1 *)
+Example bip68_upgrade_on_add_input :
+  ob_version ex_built = 2 /\ ob_version_int ex_built = 2 /\ ob_version ex_obj = 1 /\ ob_version_int ex_obj = 1.
+Proof. vm_compute. repeat split. Qed.
+
+(* class "remembered inner hash": what was right before an in-place change is wrong after it — hashSequence and the
+   digest of input 0 before and after the session differ, so nothing may be carried over between calls *)
+Example stale_inner_hash_refuted :
+  spec_hash_sequence sha256d (ob_fields (ob_run ex_obj [M_sign; M_digest])) 1 <>
+  spec_hash_sequence sha256d (ob_fields (ob_run ex_obj ex_session)) 1 /\
+  ob_digest sha256d hash160 (ob_run ex_obj [M_sign; M_digest]) 0 1 <> ob_digest sha256d hash160 (ob_run ex_obj ex_session) 0 1.
+Proof.
+  split; [vm_compute; discriminate|apply opt_eqb_false; vm_compute; reflexivity].
+Qed.
+
+(* class "copies of one field diverge" (the guard keeps_version_copies): assigning version_int alone separates the
+   copies, and a preimage committing to version_int is then not the consensus preimage of what raw() serialises;
+   likewise a preimage that kept version 1 for the BIP68-upgraded transaction *)
+Example version_int_alone_refuted :
+  ~ versions_agree (ob_run ex_obj [M_version_int 2]) /\
+  (let o := ob_run ex_obj [M_version_int 2] in
+   lib_bip143_preimage sha256d hash160 (mk_stx (ob_version_int o) (ob_ins o) (ob_outs o) (ob_locktime o) (ob_segwit o)) 0 1
+   <> spec_bip143_preimage sha256d hash160 (ob_fields o) 0 1) /\
+  lib_bip143_preimage sha256d hash160 (mk_stx 1 (ob_ins ex_built) (ob_outs ex_built) (ob_locktime ex_built) true) 0 1
+   <> spec_bip143_preimage sha256d hash160 (ob_fields ex_built) 0 1.
+Proof.
+  split; [vm_compute; discriminate|]. split; apply opt_eqb_false; vm_compute; reflexivity.
+Qed.
+
+(* finding C01-3: before the repair a second signature of a P2PK input never reaches raw(): the scriptSig written
+   for the first digest stays (only an empty scriptSig is filled in) *)
+Example p2pk_resign_unrepaired_refuted :
+  lib_p2pk_scriptsig_at false [x47; x30; x44] [x48; x30; x45] <> lib_varstr [x48; x30; x45] /\
+  lib_p2pk_scriptsig_at false [] [x48; x30; x45] = lib_varstr [x48; x30; x45].
+Proof. split; [vm_compute; discriminate|reflexivity]. Qed.
+
 Print Assumptions script_code_ok.
 Print Assumptions legacy_preimage_ok.
 Print Assumptions legacy_preimage_ok_ALL.
@@ -193,3 +329,15 @@ Print Assumptions verify_digest_is_sign_digest.
 Print Assumptions preimage_commits.
 Print Assumptions preimage_commits_or_collision.
 Print Assumptions legacy_preimage_commits.
+Print Assumptions lib_digest_depends_only_on_fields.
+Print Assumptions sign_verify_digest_depend_only_on_fields.
+Print Assumptions equal_fields_equal_preimages.
+Print Assumptions session_no_hidden_state.
+Print Assumptions session_digest_is_fresh_digest.
+Print Assumptions sessions_with_equal_fields_agree.
+Print Assumptions observations_transparent.
+Print Assumptions version_copies_agree.
+Print Assumptions build_api_version_copies_agree.
+Print Assumptions digest_commits_to_version_int.
+Print Assumptions session_digest_ok.
+Print Assumptions p2pk_resign_scriptsig_ok.
